@@ -182,7 +182,9 @@ class Version(_BaseVersion):
     True
     """
 
-    _regex = re.compile(r"^\s*" + VERSION_PATTERN + r"\s*$", re.VERBOSE | re.IGNORECASE)
+    _regex = re.compile(
+        r"^\s*(?a:" + VERSION_PATTERN + r")\s*$", re.VERBOSE | re.IGNORECASE
+    )
     _key: CmpKey
 
     def __init__(self, version: str) -> None:
